@@ -797,8 +797,11 @@ def drain(sim, max_rounds, outcome='success', new=(True,)):
 
     returns the number of rounds used, or None if not quiescent after max_rounds
     '''
-    wid = 900000
+    # (worker ids are never reused within a history: a reused id would replace the FakeWorker of a connection
+    # the farm still knows)
+    wid = getattr(sim, 'drain_wid', 900000)
     for rnd in range(max_rounds):
+        sim.drain_wid = wid
         if not sim.inflight() and not any(n.get('todo') for n in sim.nodes().values()):
             return rnd
         # enough workers for everything queued
@@ -810,6 +813,7 @@ def drain(sim, max_rounds, outcome='success', new=(True,)):
         sim.apply({'op': 'dispatch'})
         for w in sorted([w for w in sim.workers.values() if w.task is not None], key=lambda k: k.wid):
             sim.apply({'op': 'reply', 'w': w.wid, 'outcome': outcome, 'new': list(new)})
+    sim.drain_wid = wid
     if not sim.inflight() and not any(n.get('todo') for n in sim.nodes().values()):
         return max_rounds
     return None
